@@ -150,6 +150,7 @@ type Gap struct {
 	Prev     int // id of the significant token before (0: open tag)
 	Next     int // id of the token after (-1: end of input)
 	PrevLast byte
+	Ctx      string // "halt-compiler-head": between __halt_compiler and its ';'
 }
 
 func triviaGaps(src string, p *Probe, ids *tokIDs) []Gap {
@@ -160,8 +161,10 @@ func triviaGaps(src string, p *Probe, ids *tokIDs) []Gap {
 	html := true
 	lastEnd := 0
 	prevID := 0
+	prevPrevID := 0
 	havePrev := false
 	afterHalt := false
+	haltHead := false
 	add := func(to, next int) {
 		if html || inStr || inTick || inDoc || afterHalt || !havePrev {
 			return
@@ -169,7 +172,15 @@ func triviaGaps(src string, p *Probe, ids *tokIDs) []Gap {
 		if prevID == ids.id("T_END_HEREDOC") || prevID == ids.id("T_INLINE_HTML") {
 			return
 		}
+		if prevID == int(';') && prevPrevID == ids.id("T_END_HEREDOC") {
+			// before PHP 7.3 a heredoc label is only recognised when "LABEL;" is followed
+			// by a newline: trivia right after that ';' legitimately changes the program
+			return
+		}
 		g := Gap{From: lastEnd, To: to, Prev: prevID, Next: next}
+		if haltHead {
+			g.Ctx = "halt-compiler-head"
+		}
 		if lastEnd > 0 {
 			g.PrevLast = src[lastEnd-1]
 		}
@@ -202,6 +213,10 @@ func triviaGaps(src string, p *Probe, ids *tokIDs) []Gap {
 			add(t.Start, t.ID)
 		}
 		switch {
+		case t.ID == ids.id("T_HALT_COMPILER"):
+			haltHead = true
+		case haltHead && t.ID == int(';'):
+			haltHead = false
 		case t.ID == ids.id("T_INLINE_HTML"):
 			html = true
 		case t.ID == int('"'):
@@ -220,6 +235,7 @@ func triviaGaps(src string, p *Probe, ids *tokIDs) []Gap {
 			html = true
 		}
 		lastEnd = t.End
+		prevPrevID = prevID
 		prevID = t.ID
 		havePrev = true
 	}
@@ -298,6 +314,7 @@ func (c *Check) triviaJobs(entry, ver string, every int, rich bool, fuel int64, 
 				j.Params["base"] = s.Src
 				j.Params["prev"] = g.Prev
 				j.Params["next"] = g.Next
+				j.Params["ctx"] = g.Ctx
 				var cv []string
 				if cover != "" {
 					cv = []string{cover}
